@@ -38,7 +38,7 @@ def build():
     u.raw("crypto", SPEC)
     u.raw("crypto", TRUSTED, trusted=True)
     u.verify(KT, "KeyType::get_default_signature_alg", "crypto", props=["C15"], fns={"get_default_signature_alg": FnSpec(ret="r", sig="""
-    ensures r == default_alg(*self), //@C15.default_algorithm_table
+    ensures r == default_alg(*self), //@C15.default_algorithm_table,C04.default_algorithm_table
 """)})
     u.verify(KT, "KeyType::check_alg_compatibility", "crypto", props=["C15", "C04"], fns={"check_alg_compatibility": FnSpec(ret="r", sig="""
     ensures r is Ok <==> *alg == default_alg(*self), //@C15.algorithm_key_compatibility_table,C04.alg_matches_key
